@@ -3,9 +3,10 @@ import copy
 
 ID = "C12"
 HARNESS_TEST = "TestC12"
-COQ_MODEL = ["C12/Check.v"]
+GEN = "c12"
+COQ_MODEL = ["C12/Check.v", "C12/Cfg.v", "Gen/C12Facts.v"]
 COQ_PROOF_DEPS = ["C12/Proofs.v"]
-COQ_OBLIG = ["C12/Property.v"]
+COQ_OBLIG = ["C12/Property.v", "Gen/C12Oblig.v"]
 CASES_HEADER = "Require Import Nib.C10.Model Nib.C12.Model Nib.C12.Spec Nib.C12.Check."
 CASE_TYPE = "case"
 MISMATCH_FN = "mismatch"
@@ -27,7 +28,8 @@ ASSUMPTIONS = [
     "the property predicate is required for Params.Validate-accepted parameters, int64 bonded power and LegacyDec rates (C10 domain)",
     "one aggregate vote per validator with at most one tuple per pair (enforced by the msg server)",
 ]
-TRUSTED = ["coq/Lib/Dec.v (LegacyDec arithmetic on raw integers, validated against cosmossdk.io/math)",
+TRUSTED = ["harness/gen/c12/main.go normal forms (stage sequence, guards, formulas) — prints terms, never verdicts",
+           "coq/Lib/Dec.v (LegacyDec arithmetic on raw integers, validated against cosmossdk.io/math)",
            "coq/C10/Model.v (shared model of eligible validators, vote grouping, quorum, weighted median, reward spread)"]
 HARNESS_TIMEOUT = {"quick": 600, "thorough": 7200}
 
@@ -205,5 +207,5 @@ MANIFEST = {
                    "AllocateRewards is assumed funded with >= 1 period (no production caller exists; it inserts the allocation "
                    "before the transfer). Only two denoms are observed by the checker (theorems are per denom index). "
                    "Trusted: Coq kernel + vm_compute, Lib/Dec.v, C10/Model.v, the Go driver, tools/props/c12.py."),
-    "technique": "Coq proof (induction over histories, invariant) over an exact-arithmetic model + differential correspondence on keeper-level histories",
+    "technique": "generated structural facts (go/ast) with obligations instantiating the theorems for the current tree + Coq proof (induction over histories, invariant) over an exact-arithmetic model + differential correspondence on keeper-level histories",
 }
